@@ -20,3 +20,63 @@ layout('h2.stream.H2StreamStateMachine', {
 layout('h2.connection.H2ConnectionStateMachine', {
     'state': 'enum:ConnectionState',
 })
+
+layout('collections.deque', {'items': 'seqint', 'head_none': 'bool'})
+
+layout('h2.settings.Settings', {'_settings': 'map:collections.deque'})
+
+layout('h2.config.H2Configuration', {
+    'client_side': 'bool',
+    'header_encoding': 'optstr',
+    'validate_outbound_headers': 'bool',
+    'normalize_outbound_headers': 'bool',
+    'validate_inbound_headers': 'bool',
+    'normalize_inbound_headers': 'bool',
+    'logger': 'opaque',
+})
+
+layout('h2.stream.H2Stream', {
+    'state_machine': 'obj:h2.stream.H2StreamStateMachine',
+    'stream_id': 'int',
+    'max_outbound_frame_size': 'optint',
+    'max_inbound_frame_size': 'int',
+    'request_method': 'optbytes',
+    'outbound_flow_control_window': 'int',
+    '_inbound_window_manager': 'obj:h2.windows.WindowManager',
+    '_expected_content_length': 'optint',
+    '_actual_content_length': 'int',
+    '_authority': 'optbytes',
+    'config': 'shared',
+})
+
+layout('h2.frame_buffer.FrameBuffer', {
+    'data': 'bytes',
+    'max_frame_size': 'int',
+    '_preamble': 'bytes',
+    '_preamble_len': 'int',
+    '_headers_buffer': 'list',
+})
+
+layout('hpack.hpack.Encoder', {'header_table_size': 'int'})
+layout('hpack.hpack.Decoder', {'max_header_list_size': 'optint', 'max_allowed_table_size': 'int'})
+
+layout('h2.connection.H2Connection', {
+    'state_machine': 'obj:h2.connection.H2ConnectionStateMachine',
+    'config': 'obj:h2.config.H2Configuration',
+    'streams': 'map:h2.stream.H2Stream',
+    'highest_inbound_stream_id': 'int',
+    'highest_outbound_stream_id': 'int',
+    'encoder': 'obj:hpack.hpack.Encoder',
+    'decoder': 'obj:hpack.hpack.Decoder',
+    'local_settings': 'obj:h2.settings.Settings',
+    'remote_settings': 'obj:h2.settings.Settings',
+    'outbound_flow_control_window': 'int',
+    'max_outbound_frame_size': 'int',
+    'max_inbound_frame_size': 'int',
+    'incoming_buffer': 'obj:h2.frame_buffer.FrameBuffer',
+    '_header_frames': 'list',
+    '_data_to_send': 'bytearray',
+    '_closed_streams': 'closedstreams',
+    '_inbound_flow_control_window_manager': 'obj:h2.windows.WindowManager',
+    '_frame_dispatch_table': 'dispatch',
+})
